@@ -15,6 +15,7 @@ from .rules import tables_sem as RTS
 
 from .rules import density as RDn
 from .rules import density_sem as RDS
+from .rules import system_sem as RSS
 from .rules import omega_tab as RO
 from .rules import calculate as RCa
 from .rules import prism as RP2
@@ -224,7 +225,7 @@ prop('C06',
 
 
 prop('C16',
-     [('R00.dyn', RG.rule_no_dynamic), ('R16.x', RP2.rule_system_check), ('R16.d', RP2.rule_check_dominates),
+     [('R00.dyn', RG.rule_no_dynamic), ('R16.x', _fb(RSS.rule_system_check, RP2.rule_system_check)), ('R16.d', RP2.rule_check_dominates),
       ('R16.c', RP2.rule_copy_and_frame), ('R16.w', RP2.rule_wiring), ('R14.c', R14_SETITEM),
       ('R14.k', R14_SETUNSET), ('R07.i', RD.rule_mutators)],
      'Static analysis of System/PRISM construction: System.__init__ is interpreted to enumerate the tables it creates and '
